@@ -10,8 +10,10 @@ of the report format:
   po2 (bits, is_signed, max_value): +-2^e; the exponent uses
     bits - is_signed bits of which one is the exponent sign, so
     e in [-2^(n-1), 2^(n-1)-1] (Shifter docstring), additionally
-    2^e <= max_value when max_value != -1.  0 is accepted (no zero code exists,
-    the library encodes 0 with the smallest code).
+    e <= ceil(log2(max_value)) when max_value != -1 (quantized_po2 clips to
+    max_value and then ROUNDS log2, so max_value=6 stores 8; get_exp documents
+    the same ceil).  0 is accepted (no zero code exists, the library encodes 0
+    with the smallest code).
   "values": explicit list (binary / ternary).
   floating point: everything fits.
 """
@@ -103,8 +105,8 @@ def violations(rep, values):
       lambda x: "value %r = 2^%d below smallest exponent %d" %
       (x, int(np.log2(abs(x))), emin))
   hi = good & (ee > emax)
-  if mv is not None:
-    hi |= good & (np.abs(v) > mv)
+  if mv is not None and mv > 0:
+    hi |= good & (ee > int(np.ceil(np.log2(mv))))
   add(hi, "exp_high", lambda x: "value %r above largest exponent %d / max_value %r"
       % (x, emax, mv))
   return out
